@@ -293,6 +293,7 @@ type sout struct {
 	st   *sstate
 	cond *bform // nil = true
 	ret  sval
+	leftLoop bool
 }
 
 type semit struct {
@@ -307,6 +308,8 @@ type semit struct {
 	oob []oobCheck
 	// path condition of the statement being executed (nil = true)
 	pc *bform
+	// the interpreted code read receiver bytes directly (pieces may need lifting)
+	readBytes bool
 }
 
 type oobCheck struct {
@@ -947,10 +950,13 @@ func (in *semit) exec(st *sstate, s ast.Stmt) ([]sout, error) {
 		if n > 4096 {
 			return nil, serr(s, "range too long")
 		}
-		for i := 0; i < n; i++ {
+		return in.runLoop(st, x.Body.List, s, func(st *sstate, i int) (bool, error) {
+			if i >= n {
+				return false, nil
+			}
 			if x.Key != nil {
 				if err := in.store(st, x.Key, conc(vInt(int64(i)))); err != nil {
-					return nil, err
+					return false, err
 				}
 			}
 			if x.Value != nil {
@@ -962,22 +968,11 @@ func (in *semit) exec(st *sstate, s ast.Stmt) ([]sout, error) {
 					ev = vInt(int64(xv.c.S[i]))
 				}
 				if err := in.store(st, x.Value, conc(ev)); err != nil {
-					return nil, err
+					return false, err
 				}
 			}
-			nst, exit, outs, err := in.loopBody(st, x.Body.List, s)
-			if err != nil {
-				return nil, err
-			}
-			if outs != nil {
-				return outs, nil
-			}
-			st = nst
-			if exit {
-				break
-			}
-		}
-		return []sout{{ctrl: scNext, st: st}}, nil
+			return true, nil
+		}, nil)
 	case *ast.ForStmt:
 		if x.Init != nil {
 			outs, err := in.exec(st, x.Init)
@@ -986,42 +981,31 @@ func (in *semit) exec(st *sstate, s ast.Stmt) ([]sout, error) {
 			}
 			st = outs[0].st
 		}
-		for it := 0; ; it++ {
-			if it > 4096 {
-				return nil, serr(s, "loop does not terminate on the model")
+		return in.runLoop(st, x.Body.List, s, func(st *sstate, i int) (bool, error) {
+			if x.Cond == nil {
+				return true, nil
 			}
-			if x.Cond != nil {
-				c, err := in.eval(st, x.Cond)
-				if err != nil {
-					return nil, err
-				}
-				if c.k != skConc || c.c.K != VBool {
-					return nil, serr(x.Cond, "loop condition is not concrete")
-				}
-				if c.c.I == 0 {
-					break
-				}
-			}
-			nst, exit, outs, err := in.loopBody(st, x.Body.List, s)
+			c, err := in.eval(st, x.Cond)
 			if err != nil {
-				return nil, err
+				return false, err
 			}
-			if outs != nil {
-				return outs, nil
+			if c.k != skConc || c.c.K != VBool {
+				return false, serr(x.Cond, "loop condition is not concrete")
 			}
-			st = nst
-			if exit {
-				break
+			return c.c.I != 0, nil
+		}, func(st *sstate) error {
+			if x.Post == nil {
+				return nil
 			}
-			if x.Post != nil {
-				po, err := in.exec(st, x.Post)
-				if err != nil {
-					return nil, err
-				}
-				st = po[0].st
+			po, err := in.exec(st, x.Post)
+			if err != nil {
+				return err
 			}
-		}
-		return []sout{{ctrl: scNext, st: st}}, nil
+			if len(po) != 1 || po[0].ctrl != scNext {
+				return serr(x.Post, "loop post statement with control flow")
+			}
+			return nil
+		})
 	}
 	return nil, serr(s, "statement %T outside the emitter language", s)
 }
@@ -1039,39 +1023,101 @@ func unbreak(outs []sout) []sout {
 	return m
 }
 
-// loopBody runs one iteration. It returns the state for the next iteration,
-// whether the loop is left (break), or the outcomes when the function returns.
-func (in *semit) loopBody(st *sstate, body []ast.Stmt, at ast.Node) (*sstate, bool, []sout, error) {
+// loopBody runs one iteration. It returns the state for the next iteration
+// (nil when no path continues), whether the loop is left unconditionally, and
+// the outcomes that leave the loop or the function under a condition on
+// symbolic values (their conditions are relative to the iteration's entry).
+func (in *semit) loopBody(st *sstate, body []ast.Stmt, at ast.Node) (*sstate, *bform, bool, []sout, error) {
 	outs, err := in.execList(st, body)
 	if err != nil {
-		return nil, false, nil, err
+		return nil, nil, false, nil, err
 	}
-	var cont []sout
+	var cont, exits []sout
 	for _, o := range outs {
 		switch o.ctrl {
 		case scNext, scContinue:
 			o.ctrl = scNext
 			cont = append(cont, o)
 		case scBreak:
-			if len(outs) != 1 {
-				return nil, false, nil, serr(at, "the loop is left under a condition on Get strings")
+			if len(outs) == 1 {
+				return o.st, nil, true, nil, nil
 			}
-			return o.st, true, nil, nil
+			o.ctrl = scNext // leaves the loop: continues after it
+			o.leftLoop = true
+			exits = append(exits, o)
 		case scReturn:
-			if len(outs) != 1 {
-				return nil, false, nil, serr(at, "the function returns from inside a loop under a condition on Get strings")
-			}
-			return nil, false, outs, nil
+			exits = append(exits, o)
 		}
 	}
 	m, err := mergeByCtrl(cont)
 	if err != nil {
-		return nil, false, nil, serr(at, "%v", err)
+		return nil, nil, false, nil, serr(at, "%v", err)
 	}
-	if len(m) != 1 {
-		return nil, false, nil, serr(at, "loop body has no continuation")
+	if len(m) == 0 {
+		return nil, nil, false, exits, nil
 	}
-	return m[0].st, false, nil, nil
+	return m[0].st, m[0].cond, false, exits, nil
+}
+
+// runLoop drives the iterations of a loop whose trip count is concrete.
+// next(i) prepares iteration i (binds the range variables, tests the loop
+// condition) and says whether there is one.
+func (in *semit) runLoop(st *sstate, body []ast.Stmt, at ast.Node, next func(st *sstate, i int) (bool, error), post func(st *sstate) error) ([]sout, error) {
+	var exits []sout
+	var pc *bform // condition, relative to the loop's entry, under which the loop is still running
+	basePC := in.pc
+	defer func() { in.pc = basePC }()
+	for i := 0; ; i++ {
+		if i > 4096 {
+			return nil, serr(at, "loop does not terminate on the model")
+		}
+		more, err := next(st, i)
+		if err != nil {
+			return nil, err
+		}
+		if !more {
+			break
+		}
+		in.pc = bAnd(basePC, pc)
+		nst, cond, left, ex, err := in.loopBody(st, body, at)
+		if err != nil {
+			return nil, err
+		}
+		for _, e := range ex {
+			e.cond = bAnd(pc, e.cond)
+			exits = append(exits, e)
+		}
+		if left {
+			st = nst
+			break
+		}
+		if nst == nil {
+			// every path left the loop or the function
+			st = nil
+			break
+		}
+		st = nst
+		if len(ex) > 0 {
+			pc = bAnd(pc, cond)
+		}
+		if post != nil {
+			if err := post(st); err != nil {
+				return nil, err
+			}
+		}
+	}
+	var outs []sout
+	if st != nil {
+		outs = append(outs, sout{ctrl: scNext, st: st, cond: pc})
+	}
+	for _, e := range exits {
+		e.leftLoop = false
+		outs = append(outs, e)
+	}
+	if len(outs) == 1 && outs[0].ctrl == scNext {
+		outs[0].cond = nil
+	}
+	return mergeByCtrl(outs)
 }
 
 func asFormula(v sval) (*bform, bool) {
@@ -1494,6 +1540,10 @@ func (in *semit) eval(st *sstate, e ast.Expr) (sval, error) {
 						}
 					}
 				}
+				// &table[i]: the (immutable) element itself
+				if v, err := in.eval(st, t); err == nil && v.k == skConc && (v.c.K == VStruct || v.c.K == VList) {
+					return v, nil
+				}
 			case *ast.CompositeLit:
 				v, err := in.eval(st, t)
 				if err != nil {
@@ -1633,8 +1683,14 @@ func (in *semit) eval(st *sstate, e ast.Expr) (sval, error) {
 		}
 		return sval{}, serr(e, "indexing outside the emitter language")
 	case *ast.SelectorExpr:
-		if _, _, ok := p.fieldOf(n); ok {
-			return sval{}, serr(e, "direct read of a receiver byte")
+		if idx, _, ok := p.fieldOf(n); ok {
+			// a receiver byte: eight symbolic bits (atoms "B:<field>.<bit>")
+			out := sval{k: skBits}
+			for b := 0; b < 8; b++ {
+				out.bits = append(out.bits, bAtom(fmt.Sprintf("B:%d.%d", idx, b), "1"))
+			}
+			in.readBytes = true
+			return out, nil
 		}
 		if sel := info.Selections[n]; sel != nil && sel.Kind() == types.FieldVal {
 			base, err := in.eval(st, n.X)
@@ -1692,6 +1748,24 @@ func (in *semit) eval(st *sstate, e ast.Expr) (sval, error) {
 		if lv, ok := p.listValue(n); ok {
 			return conc(lv), nil
 		}
+		if tv, ok := info.Types[n]; ok {
+			_, isArr := tv.Type.Underlying().(*types.Array)
+			_, isSl := tv.Type.Underlying().(*types.Slice)
+			if isArr || isSl {
+				out := sval{k: skArr}
+				for _, el := range n.Elts {
+					if _, isKV := el.(*ast.KeyValueExpr); isKV {
+						return sval{}, serr(e, "keyed literal of non-constants")
+					}
+					v, err := in.eval(st, el)
+					if err != nil {
+						return sval{}, err
+					}
+					out.elems = append(out.elems, v)
+				}
+				return out, nil
+			}
+		}
 		return sval{}, serr(e, "composite literal of non-constants")
 	case *ast.SliceExpr:
 		a, err := in.eval(st, n.X)
@@ -1713,6 +1787,9 @@ func (in *semit) eval(st *sstate, e ast.Expr) (sval, error) {
 					return sval{}, err
 				}
 				if v.k != skConc || v.c.K != VInt {
+					if a.c.K == VStr && v.k == skBits {
+						goto symbolicBounds
+					}
 					return sval{}, serr(e, "symbolic slice bound")
 				}
 				if i == 0 {
@@ -1728,6 +1805,32 @@ func (in *semit) eval(st *sstate, e ast.Expr) (sval, error) {
 				return conc(vStr(a.c.S[lo:hi])), nil
 			}
 			return conc(Val{K: VList, T: a.c.T[lo:hi]}), nil
+		}
+	symbolicBounds:
+		if a.k == skConc && a.c.K == VStr && !n.Slice3 {
+			// constant text cut at symbolic positions
+			lo, hi := conc(vInt(0)), conc(vInt(int64(len(a.c.S))))
+			if n.Low != nil {
+				v, err := in.eval(st, n.Low)
+				if err != nil {
+					return sval{}, err
+				}
+				lo = v
+			}
+			if n.High != nil {
+				v, err := in.eval(st, n.High)
+				if err != nil {
+					return sval{}, err
+				}
+				hi = v
+			}
+			return in.caseSplit([]sval{lo, hi}, e, func(vs []Val) (sval, error) {
+				l, h := vs[0].I, vs[1].I
+				if l < 0 || h > int64(len(a.c.S)) || l > h {
+					return sval{}, serr(e, "slice bounds [%d:%d] out of range of %q: Vector would panic", l, h, a.c.S)
+				}
+				return conc(vStr(a.c.S[l:h])), nil
+			})
 		}
 		return sval{}, serr(e, "slicing outside the emitter language")
 	}
@@ -1836,6 +1939,37 @@ func (in *semit) evalBinary(st *sstate, n *ast.BinaryExpr) (sval, error) {
 				}
 			}
 			return out, nil
+		}
+		switch n.Op {
+		case token.LSS, token.LEQ, token.GTR, token.GEQ:
+			lt := func(p, q []*bform) *bform { // unsigned p < q
+				var f *bform = &bform{op: "false"}
+				for i := 0; i < len(p); i++ { // from LSB upwards: f_i = (¬p_i ∧ q_i) ∨ (p_i ≡ q_i ∧ f_{i-1})
+					f = bOr(bAnd(bNot(p[i]), q[i]), bAnd(bNot(bXor(p[i], q[i])), f))
+				}
+				return f
+			}
+			var f *bform
+			switch n.Op {
+			case token.LSS:
+				f = lt(x, y)
+			case token.GTR:
+				f = lt(y, x)
+			case token.LEQ:
+				f = bNot(lt(y, x))
+			default:
+				f = bNot(lt(x, y))
+			}
+			return formulaVal(f), nil
+		case token.ADD, token.SUB, token.MUL, token.QUO, token.REM:
+			// few symbolic bits: one case per assignment
+			return in.caseSplit([]sval{a, b}, n, func(vs []Val) (sval, error) {
+				v, err := newCEnv(in.p, nil).binop(n.Op, vs[0], vs[1], in.p.Info.TypeOf(n), n)
+				if err != nil {
+					return sval{}, serr(n, "%v", err)
+				}
+				return conc(v), nil
+			})
 		}
 		return sval{}, serr(n, "operator %s on a symbolic bit set", n.Op)
 	}
@@ -2098,12 +2232,23 @@ func (in *semit) evalCall(st *sstate, n *ast.CallExpr) (sval, error) {
 			return sval{}, serr(n, "builtin %s outside the emitter language", id.Name)
 		}
 	}
+	unsafeName := ""
+	if se, ok := n.Fun.(*ast.SelectorExpr); ok {
+		if pk, ok := se.X.(*ast.Ident); ok {
+			if pn, ok := info.Uses[pk].(*types.PkgName); ok && pn.Imported().Path() == "unsafe" {
+				unsafeName = se.Sel.Name
+			}
+		}
+	}
 	fn := calleeOf(info, n)
-	if fn == nil {
+	if fn == nil && unsafeName == "" {
 		return sval{}, serr(n, "call of an unresolved function")
 	}
-	if fn.Pkg() != nil && fn.Pkg().Path() == "unsafe" {
-		switch fn.Name() {
+	if unsafeName != "" || (fn.Pkg() != nil && fn.Pkg().Path() == "unsafe") {
+		if unsafeName == "" {
+			unsafeName = fn.Name()
+		}
+		switch unsafeName {
 		case "String":
 			// unsafe.String(&b[0], n): the buffer's bytes
 			v, err := in.eval(st, n.Args[0])
@@ -2124,7 +2269,7 @@ func (in *semit) evalCall(st *sstate, n *ast.CallExpr) (sval, error) {
 				}
 			}
 		}
-		return sval{}, serr(n, "unsafe.%s form outside the emitter language", fn.Name())
+		return sval{}, serr(n, "unsafe.%s form outside the emitter language", unsafeName)
 	}
 	if fn.Pkg() != nil && fn.Pkg().Path() == "math/bits" && strings.HasPrefix(fn.Name(), "TrailingZeros") && len(n.Args) == 1 {
 		v, err := in.eval(st, n.Args[0])
@@ -2349,6 +2494,15 @@ func (p *Pkg) semanticEmitModel() (*EmitModel, error) {
 	if rv.k != skBuf {
 		return nil, fmt.Errorf("Vector's result is not the bytes of its buffer")
 	}
+	if in.readBytes || hasBitAtoms(rv.pieces) {
+		sm := p.SetModel()
+		lf := &lifter{p: p, sm: sm, gm: gm}
+		lifted, err := lf.liftList(rv.pieces)
+		if err != nil {
+			return nil, err
+		}
+		rv.pieces = lifted
+	}
 	em := &EmitModel{Fn: fd, Semantic: true}
 	em.MakeCall = rv.mk
 	p.locateBuffer(em)
@@ -2569,3 +2723,357 @@ func (p *Pkg) locateBuffer(em *EmitModel) {
 }
 
 var _ = strings.Join
+
+// ---------------------------------------------------------------------------
+// lifting: pieces whose conditions and texts depend on receiver *bits* are
+// re-expressed over the strings Get prints, by enumeration of the codes of the
+// metrics that own those bits (Set model). After lifting, a value chosen from
+// a table by a metric's bits is the piece GV(metric), and a test on a metric's
+// bits is a formula over GV(metric) == "…" atoms.
+
+type lifter struct {
+	p  *Pkg
+	sm *SetModel
+	gm *GetModel
+}
+
+func (l *lifter) atomMetric(label string) (string, bool) {
+	if !strings.HasPrefix(label, "B:") {
+		return label, true
+	}
+	var f, b int
+	if _, err := fmt.Sscanf(label, "B:%d.%d", &f, &b); err != nil {
+		return "", false
+	}
+	if m := l.sm.Owner[BitPos{f, b}]; m != nil {
+		return m.Label, true
+	}
+	return "", false
+}
+
+func pieceAtoms(ps []piece, into map[string]bool) {
+	for _, c := range ps {
+		if c.label != "" {
+			into[c.label] = true
+		}
+		if c.guard != nil {
+			c.guard.labels(into)
+			pieceAtoms(c.then, into)
+			pieceAtoms(c.els, into)
+		}
+	}
+}
+
+func hasBitAtoms(ps []piece) bool {
+	at := map[string]bool{}
+	pieceAtoms(ps, at)
+	for a := range at {
+		if strings.HasPrefix(a, "B:") {
+			return true
+		}
+	}
+	return false
+}
+
+func (l *lifter) metricsOf(ps []piece) ([]string, error) {
+	at := map[string]bool{}
+	pieceAtoms(ps, at)
+	set := map[string]bool{}
+	for a := range at {
+		m, ok := l.atomMetric(a)
+		if !ok {
+			return nil, fmt.Errorf("Vector reads receiver bit %s, which belongs to no metric", strings.TrimPrefix(a, "B:"))
+		}
+		set[m] = true
+	}
+	var out []string
+	for m := range set {
+		out = append(out, m)
+	}
+	sort.Strings(out)
+	return out, nil
+}
+
+// assignment for a choice of codes: GV(label) and the bits of its field
+func (l *lifter) assignment(codes map[string]int) (map[string]string, error) {
+	asg := map[string]string{}
+	for label, c := range codes {
+		m := l.sm.ByLabel[label]
+		ga := l.gm.ByLabel[label]
+		if m == nil || ga == nil || !m.encOK {
+			return nil, fmt.Errorf("no layout for %s", label)
+		}
+		asg[label] = ga.Table[c]
+		for pos := range m.W {
+			asg[fmt.Sprintf("B:%d.%d", pos.F, pos.B)] = "0"
+		}
+		for j, pos := range m.Enc {
+			if c>>uint(j)&1 == 1 {
+				asg[fmt.Sprintf("B:%d.%d", pos.F, pos.B)] = "1"
+			}
+		}
+	}
+	return asg, nil
+}
+
+func evalPieces(ps []piece, asg map[string]string) string {
+	s := ""
+	for _, c := range ps {
+		switch {
+		case c.guard != nil:
+			if c.guard.eval(asg) {
+				s += evalPieces(c.then, asg)
+			} else {
+				s += evalPieces(c.els, asg)
+			}
+		case c.label != "":
+			s += asg[c.label]
+		default:
+			s += c.lit
+		}
+	}
+	return s
+}
+
+func (l *lifter) forCodes(metrics []string, fn func(codes map[string]int, asg map[string]string) error) error {
+	total := 1
+	for _, m := range metrics {
+		mm := l.sm.ByLabel[m]
+		if mm == nil {
+			return fmt.Errorf("Vector depends on %s, which Set does not know", m)
+		}
+		total *= len(mm.List)
+		if total > 50000 {
+			return fmt.Errorf("a condition of Vector couples too many metrics (%v)", metrics)
+		}
+	}
+	codes := map[string]int{}
+	var rec func(i int) error
+	rec = func(i int) error {
+		if i == len(metrics) {
+			asg, err := l.assignment(codes)
+			if err != nil {
+				return err
+			}
+			return fn(codes, asg)
+		}
+		for c := range l.sm.ByLabel[metrics[i]].List {
+			codes[metrics[i]] = c
+			if err := rec(i + 1); err != nil {
+				return err
+			}
+		}
+		return nil
+	}
+	return rec(0)
+}
+
+// liftFormula: the same condition over GV atoms
+func (l *lifter) liftFormula(f *bform) (*bform, error) {
+	at := map[string]bool{}
+	f.labels(at)
+	bits := false
+	for a := range at {
+		if strings.HasPrefix(a, "B:") {
+			bits = true
+		}
+	}
+	if !bits {
+		return f, nil
+	}
+	ms, err := l.metricsOf([]piece{{guard: f}})
+	if err != nil {
+		return nil, err
+	}
+	// frequent case: "some tested metric is defined"
+	var anyDefined *bform = &bform{op: "false"}
+	for _, m := range ms {
+		anyDefined = bOr(anyDefined, bNot(bAtom(m, l.gm.ByLabel[m].Table[0])))
+	}
+	isAnyDefined := true
+	var dnf *bform = &bform{op: "false"}
+	err = l.forCodes(ms, func(codes map[string]int, asg map[string]string) error {
+		v := f.eval(asg)
+		if v != anyDefined.eval(asg) {
+			isAnyDefined = false
+		}
+		if v {
+			var term *bform = &bform{op: "true"}
+			for _, m := range ms {
+				term = bAnd(term, bAtom(m, asg[m]))
+			}
+			dnf = bOr(dnf, term)
+		}
+		return nil
+	})
+	if err != nil {
+		return nil, err
+	}
+	if isAnyDefined {
+		return anyDefined, nil
+	}
+	return dnf, nil
+}
+
+func (l *lifter) liftList(ps []piece) ([]piece, error) {
+	var out []piece
+	for _, c := range ps {
+		if c.guard == nil || !hasBitAtoms([]piece{c}) {
+			if c.guard != nil {
+				// no bits below; still normalise the bodies
+				t, err := l.liftList(c.then)
+				if err != nil {
+					return nil, err
+				}
+				e, err := l.liftList(c.els)
+				if err != nil {
+					return nil, err
+				}
+				c.then, c.els = t, e
+			}
+			out = append(out, c)
+			continue
+		}
+		ms, err := l.metricsOf([]piece{c})
+		if err != nil {
+			return nil, err
+		}
+		if len(ms) == 1 {
+			// the text written as a function of the metric's code
+			m := ms[0]
+			ga := l.gm.ByLabel[m]
+			prefix, havePrefix := "", false
+			var shown *bform = &bform{op: "false"}
+			allShown := true
+			err := l.forCodes(ms, func(codes map[string]int, asg map[string]string) error {
+				o := evalPieces([]piece{c}, asg)
+				val := ga.Table[codes[m]]
+				if o == "" {
+					allShown = false
+					return nil
+				}
+				if !strings.HasSuffix(o, val) || val == "" {
+					return fmt.Errorf("for %s=%q Vector writes %q, which does not end with the string Get prints", m, val, o)
+				}
+				pre := strings.TrimSuffix(o, val)
+				if havePrefix && pre != prefix {
+					return fmt.Errorf("the text before the value of %s depends on the value (%q / %q)", m, prefix, pre)
+				}
+				prefix, havePrefix = pre, true
+				shown = bOr(shown, bAtom(m, val))
+				return nil
+			})
+			if err != nil {
+				return nil, err
+			}
+			var body []piece
+			if prefix != "" {
+				body = append(body, piece{lit: prefix, at: c.at})
+			}
+			body = append(body, piece{label: m, at: c.at})
+			if !havePrefix {
+				continue // never writes anything
+			}
+			if allShown {
+				out = append(out, body...)
+			} else {
+				out = append(out, piece{guard: shown, then: body, at: c.at})
+			}
+			continue
+		}
+		// several metrics: a conditional group; lift the condition, normalise the bodies
+		g, err := l.liftFormula(c.guard)
+		if err != nil {
+			return nil, err
+		}
+		t, err := l.liftList(c.then)
+		if err != nil {
+			return nil, err
+		}
+		e, err := l.liftList(c.els)
+		if err != nil {
+			return nil, err
+		}
+		out = append(out, piece{guard: g, then: t, els: e, at: c.at})
+	}
+	return out, nil
+}
+
+// caseSplit evaluates fn once per assignment of the atoms the symbolic
+// integers depend on (at most 2^10 cases), skipping assignments the current
+// path condition excludes, and merges the results.
+func (in *semit) caseSplit(args []sval, at ast.Node, fn func(vs []Val) (sval, error)) (sval, error) {
+	atoms := map[string]bool{}
+	for _, a := range args {
+		if a.k == skBits {
+			for _, b := range a.bits {
+				b.labels(atoms)
+			}
+		}
+	}
+	var names []string
+	for a := range atoms {
+		names = append(names, a)
+	}
+	sort.Strings(names)
+	if len(names) > 10 {
+		return sval{}, serr(at, "an operation depends on %d symbolic bits", len(names))
+	}
+	var out *sval
+	asg := map[string]string{}
+	for m := 0; m < 1<<uint(len(names)); m++ {
+		var minterm *bform = &bform{op: "true"}
+		for i, nm := range names {
+			lit := bAtom(nm, "1")
+			if m>>uint(i)&1 == 1 {
+				asg[nm] = "1"
+				minterm = bAnd(minterm, lit)
+			} else {
+				asg[nm] = "0"
+				minterm = bAnd(minterm, bNot(lit))
+			}
+		}
+		if in.pc != nil && pcExcludes(in.pc, asg) {
+			continue
+		}
+		vs := make([]Val, len(args))
+		for i, a := range args {
+			c := concretize(a, asg)
+			if c.k != skConc {
+				return sval{}, serr(at, "operand is not an integer")
+			}
+			vs[i] = c.c
+		}
+		r, err := fn(vs)
+		if err != nil {
+			return sval{}, err
+		}
+		if out == nil {
+			rr := r
+			out = &rr
+			continue
+		}
+		mv, err := mergeVal(minterm, r, *out)
+		if err != nil {
+			return sval{}, err
+		}
+		out = &mv
+	}
+	if out == nil {
+		return sval{}, serr(at, "no feasible case")
+	}
+	return *out, nil
+}
+
+// pcExcludes: the path condition is false under this (partial) assignment of
+// atoms — decided only when the condition mentions no other atom.
+func pcExcludes(pc *bform, asg map[string]string) bool {
+	at := map[string]bool{}
+	pc.labels(at)
+	for a := range at {
+		if _, ok := asg[a]; !ok {
+			return false
+		}
+	}
+	return !pc.eval(asg)
+}
